@@ -28,6 +28,18 @@
 //	    reqs      R;R;…   R = <tls 0|1>/<sniHex>/<hostHex>
 //	  answer: strict=<0|1> r r …   r = in:<site index> | in:* | 421 | s<status>
 //
+//	ca <present><ca><trusted_ca_certs><pem_files><trusted_leaf><verifiers><mode>     (7 digits)
+//	    one client_authentication block given field by field: present 0|1 (0: no block, all other
+//	    digits 0); ca 0|1 (inline ca module); trusted_ca_certs / trusted_ca_certs_pem_files /
+//	    trusted_leaf_certs 0 absent | 1 loadable | 2 not loadable (bad base64, missing file);
+//	    verifiers 0|1 (leaf verifier with a pem loader); mode 0 "" | 1 request | 2 require |
+//	    3 verify_if_given | 4 require_and_verify | 5 an unknown string.
+//	    The real ConnectionPolicies.Provision builds the tls.Config; the real App.Provision decides
+//	    the strict_sni_host default for a server [this policy on sni secret.test, catch-all].
+//	  answer: err | before=<Active() before> auth=<tls.ClientAuthType 0..4> cas=<ClientCAs!=nil>
+//	          vpc=<VerifyPeerCertificate!=nil> tix=<SessionTicketsDisabled> ver=<a foreign client
+//	          certificate is rejected by VerifyPeerCertificate> after=<Active() after> strict=<0|1>
+//
 //	e2e <srv> <hs> <sniHex> <hostHex>
 //	    a REAL crypto/tls handshake (client without certificate, over an in-memory pipe) against the
 //	    TLSConfig of a provisioned server with policies [sni secret.test + client auth: srv 0 = mode
@@ -211,17 +223,19 @@ func init() { caddy.RegisterModule(probeHandler{}) }
 // ---------------------------------------------------------------- prop
 
 type prop struct {
-	ready    bool
-	initErr  error
-	ctx      caddy.Context
-	dir      string
-	live     bool
-	matchers [nOpaque]caddytls.ConnectionMatcher
-	caB64    string
-	caPEM    string
-	caFile   string
-	e2eSrv   [nE2ESrv]*caddyhttp.Server
-	e2eTLS   [nE2ESrv]*tls.Config
+	ready      bool
+	initErr    error
+	ctx        caddy.Context
+	dir        string
+	live       bool
+	matchers   [nOpaque]caddytls.ConnectionMatcher
+	caB64      string
+	caDER      []byte
+	foreignDER []byte
+	caPEM      string
+	caFile     string
+	e2eSrv     [nE2ESrv]*caddyhttp.Server
+	e2eTLS     [nE2ESrv]*tls.Config
 }
 
 const nE2ESrv = 3
@@ -273,6 +287,9 @@ func (p *prop) setup() error {
 		if err != nil {
 			return err
 		}
+		if blk, _ := pem.Decode([]byte(c1)); blk != nil {
+			p.foreignDER = blk.Bytes
+		}
 		c2, k2, err := selfSigned("public.test")
 		if err != nil {
 			return err
@@ -308,6 +325,7 @@ func (p *prop) setup() error {
 			return err
 		}
 		p.caB64 = base64.StdEncoding.EncodeToString(der)
+		p.caDER = der
 		p.caPEM = string(pem.EncodeToMemory(&pem.Block{Type: "CERTIFICATE", Bytes: der}))
 		p.caFile = d + "/c19-ca.pem"
 		if err := os.WriteFile(p.caFile, []byte(p.caPEM), 0o600); err != nil {
@@ -647,6 +665,8 @@ func (p *prop) Run(line string) core.Outcome {
 		o = p.runPol(f)
 	case len(f) == 5 && f[0] == "enf":
 		o = p.runEnf(f)
+	case len(f) == 2 && f[0] == "ca":
+		o = p.runCA(f)
 	case len(f) == 5 && f[0] == "e2e":
 		o = p.runE2E(f)
 	default:
@@ -1200,4 +1220,158 @@ func (p *prop) runE2E(f []string) core.Outcome {
 	}
 	o.Impl = "hs=" + hs + " strict=" + map[bool]string{false: "0", true: "1"}[obsStrict] + " " + res
 	return o
+}
+
+// ---------------------------------------------------------------- client_authentication, field by field
+
+var caModes = []string{"", "request", "require", "verify_if_given", "require_and_verify", "bogus_mode"}
+
+func b01(b bool) string {
+	if b {
+		return "1"
+	}
+	return "0"
+}
+
+func (p *prop) runCA(f []string) core.Outcome {
+	bad := core.Outcome{Impl: "bad-op"}
+	d := f[1]
+	if len(d) != 7 {
+		return bad
+	}
+	lim := "1122215"
+	for i := 0; i < 7; i++ {
+		if d[i] < '0' || d[i] > lim[i] {
+			return bad
+		}
+	}
+	if d[0] == '0' && d != "0000000" {
+		return bad
+	}
+	var o core.Outcome
+	tag := func(t string) { o.Tags = append(o.Tags, t) }
+	fail := func(class, what string) {
+		o.Failures = append(o.Failures, core.Failure{Class: class, What: what})
+	}
+	tag("ca")
+	pol := map[string]any{"alpn": []string{"c19-0"}, "match": map[string]any{"sni": []string{"secret.test"}}}
+	var block map[string]any
+	if d[0] == '1' {
+		block = map[string]any{}
+		if d[1] == '1' {
+			block["ca"] = map[string]any{"provider": "inline", "trusted_ca_certs": []string{p.caB64}}
+		}
+		switch d[2] {
+		case '1':
+			block["trusted_ca_certs"] = []string{p.caB64}
+		case '2':
+			block["trusted_ca_certs"] = []string{"!!!not-base64!!!"}
+		}
+		switch d[3] {
+		case '1':
+			block["trusted_ca_certs_pem_files"] = []string{p.caFile}
+		case '2':
+			block["trusted_ca_certs_pem_files"] = []string{p.dir + "/does-not-exist.pem"}
+		}
+		switch d[4] {
+		case '1':
+			block["trusted_leaf_certs"] = []string{p.caB64}
+		case '2':
+			block["trusted_leaf_certs"] = []string{"!!!not-base64!!!"}
+		}
+		if d[5] == '1' {
+			block["verifiers"] = []any{map[string]any{"verifier": "leaf", "leaf_certs_loaders": []any{map[string]any{"loader": "pem", "certificates": []string{p.caPEM}}}}}
+		}
+		if m := caModes[d[6]-'0']; m != "" {
+			block["mode"] = m
+		}
+		pol["client_authentication"] = block
+	}
+	raw, _ := json.Marshal([]any{pol})
+	var cps caddytls.ConnectionPolicies
+	if err := json.Unmarshal(raw, &cps); err != nil {
+		return core.Outcome{Impl: "harness-json-error"}
+	}
+	before := cps[0].ClientAuthentication != nil && cps[0].ClientAuthentication.Active()
+	if err := cps.Provision(p.ctx); err != nil {
+		tag("ca:err")
+		// the http app must refuse the same block
+		if _, err2 := p.loadServer("n", []any{pol, map[string]any{"alpn": []string{"c19-1"}}}, nil); err2 == nil {
+			return core.Outcome{Impl: "err-policy-but-app-ok", Tags: o.Tags}
+		}
+		o.Impl = "err"
+		return o
+	}
+	cfg := cps[0].TLSConfig
+	after := cps[0].ClientAuthentication != nil && cps[0].ClientAuthentication.Active()
+	ver := false
+	if cfg.VerifyPeerCertificate != nil {
+		ver = cfg.VerifyPeerCertificate([][]byte{p.foreignDER}, nil) != nil
+	}
+	srv, err := p.loadServer("n", []any{pol, map[string]any{"alpn": []string{"c19-1"}}}, nil)
+	if err != nil {
+		return core.Outcome{Impl: "app-err", Tags: o.Tags}
+	}
+	strict := srv.StrictSNIHost != nil && *srv.StrictSNIHost
+	o.Impl = fmt.Sprintf("before=%s auth=%d cas=%s vpc=%s tix=%s ver=%s after=%s strict=%s", b01(before), int(cfg.ClientAuth),
+		b01(cfg.ClientCAs != nil), b01(cfg.VerifyPeerCertificate != nil), b01(cfg.SessionTicketsDisabled), b01(ver), b01(after), b01(strict))
+	tag(fmt.Sprintf("ca:auth=%d", int(cfg.ClientAuth)))
+	if before != after {
+		tag("ca:active-changes-with-provisioning")
+	}
+	if d == "0000000" || d == "1000000" {
+		tag("trivial")
+	}
+	// ---- oracle, on the real tls.Config (not on Active()): a policy that asks clients for a
+	// certificate puts strict SNI-Host in effect by default
+	if cfg.ClientAuth != tls.NoClientCert && !strict {
+		fail("strict-sni-host-not-enabled", fmt.Sprintf("client_authentication %s builds a tls.Config with ClientAuth=%v, strict_sni_host is not set, but the provisioned server does not enforce strict SNI-Host", mustJSON(block), cfg.ClientAuth))
+	}
+	// a configured certificate verifier (verifier module / trusted leaf certificate) is in force
+	if (d[5] == '1' || d[4] == '1') && !ver {
+		fail("client-cert-verifier-not-installed", fmt.Sprintf("client_authentication %s: a foreign client certificate passes VerifyPeerCertificate", mustJSON(block)))
+	}
+	// any trust material or verifier without a mode must REQUIRE a certificate
+	if d[6] == '0' && d[1:6] != "00000" && cfg.ClientAuth != tls.RequireAnyClientCert && cfg.ClientAuth != tls.RequireAndVerifyClientCert {
+		fail("client-cert-not-required", fmt.Sprintf("client_authentication %s (no mode): ClientAuth=%v does not require a certificate", mustJSON(block), cfg.ClientAuth))
+	}
+	return o
+}
+
+func mustJSON(v any) string {
+	b, _ := json.Marshal(v)
+	if len(b) > 300 {
+		b = append(b[:300], "..."...)
+	}
+	return string(b)
+}
+
+// loadServer provisions a real http app with one server: strict n|t|f, the given policies, routes per site + catch-all.
+func (p *prop) loadServer(strict string, pols []any, sites []string) (*caddyhttp.Server, error) {
+	srvCfg := map[string]any{"listen": []string{":443"}, "automatic_https": map[string]any{"disable": true}}
+	switch strict {
+	case "t":
+		srvCfg["strict_sni_host"] = true
+	case "f":
+		srvCfg["strict_sni_host"] = false
+	}
+	var routes []any
+	for i, s := range sites {
+		routes = append(routes, map[string]any{
+			"match":    []any{map[string]any{"host": []string{s}}},
+			"handle":   []any{map[string]any{"handler": "verif_c19_probe", "site": strconv.Itoa(i)}},
+			"terminal": true,
+		})
+	}
+	routes = append(routes, map[string]any{"handle": []any{map[string]any{"handler": "verif_c19_probe", "site": "*"}}})
+	srvCfg["routes"] = routes
+	if len(pols) > 0 {
+		srvCfg["tls_connection_policies"] = pols
+	}
+	raw, _ := json.Marshal(map[string]any{"servers": map[string]any{"s": srvCfg}})
+	v, err := p.ctx.LoadModuleByID("http", raw)
+	if err != nil {
+		return nil, err
+	}
+	return v.(*caddyhttp.App).Servers["s"], nil
 }
